@@ -16,10 +16,14 @@ def gen_graph_workspace(rnd: random.Random, root="/vg"):
     def add(path, src):
         blocks.setdefault(path, []).append(src)
 
+    # a helper module whose fixtures reach the graph through an import of the conftest beside it:
+    # fixtures DEFINED in that conftest depend on fixtures it only imports
+    imp_dir = rnd.choice(dirs) if rnd.random() < 0.4 else None
+    imp_mod = imp_dir + "/gfx_mod.py" if imp_dir else None
     # each name gets 1-3 definitions at different places
     for n in names:
-        places = rnd.sample([d + "/conftest.py" for d in dirs] + [dirs[-1] + "/test_g.py", root + "/other/conftest.py"],
-                            rnd.randint(1, min(3, len(dirs) + 2)))
+        cands = [d + "/conftest.py" for d in dirs] + [dirs[-1] + "/test_g.py", root + "/other/conftest.py"] + ([imp_mod] if imp_mod else [])
+        places = rnd.sample(cands, rnd.randint(1, min(3, len(dirs) + 2)))
         for p in places:
             deps = []
             r = rnd.random()
@@ -37,9 +41,16 @@ def gen_graph_workspace(rnd: random.Random, root="/vg"):
             if rnd.random() < 0.08:
                 add(p, wsgen.fixture_src(rnd, n, params=[m for m in names if rnd.random() < 0.3], scope=rnd.choice(SCOPES), style="pytest.fixture"))
                 tags.append("redefinition")
+    headers = {}
+    if imp_mod and imp_mod in blocks:
+        cf = imp_dir + "/conftest.py"
+        blocks.setdefault(cf, [])
+        provided = sorted(set(n for n in names if any(("def %s(" % n) in b for b in blocks[imp_mod])))
+        headers[cf] = rnd.choice(["from .gfx_mod import *\n", "from .gfx_mod import %s\n" % ", ".join(provided), "pytest_plugins = [\"gfx_mod\"]\n"])
+        tags.append("imported-provider")
     for p, bs in blocks.items():
         rnd.shuffle(bs)
-        files[p] = "import pytest\n\n" + "\n".join(bs)
+        files[p] = "import pytest\n" + headers.get(p, "") + "\n" + "\n".join(bs)
     files[dirs[-1] + "/test_use.py"] = "def test_u(%s):\n    pass\n" % ", ".join(rnd.sample(names, rnd.randint(1, len(names))))
     order = sorted(files)
     rnd.shuffle(order)
